@@ -11,7 +11,7 @@ From TV Require Import spec.Storage spec.Spec proofs.SpecSums proofs.SpecLemmas 
                        model.DesugarSem model.Exhaust proofs.ExhaustProofs
                        model.DesugarSemGraph proofs.DesugarSemGraphProofs
                        model.Kernel proofs.KernelLocate proofs.KernelEncode proofs.KernelExhaust
-                       proofs.KernelSound.
+                       proofs.KernelSound proofs.KernelBucket.
 Import ListNotations.
 Local Open Scope Z_scope.
 
@@ -533,7 +533,243 @@ Proof.
 Qed.
 
 
+(** * the same with buckets *)
+
+Lemma leaf_value_veq rho rho' id : veq rho rho' -> leaf_value cfg rho id = leaf_value cfg rho' id.
+Proof.
+  intros V. unfold leaf_value. destruct (input_of cfg id) as [[t idx]|]; [|reflexivity].
+  now rewrite (map_ext rho rho' V).
+Qed.
+
+Lemma isupp_ext P Q (e : iexpr Z) : (forall i, P i = Q i) -> isupp P e = isupp Q e.
+Proof. intros H. induction e; cbn [isupp]; try reflexivity; [apply H| |]; now rewrite IHe1, IHe2. Qed.
+
+Lemma gsupp_veq (g : graph Z) : forall rho rho', veq rho rho' -> gsupp cfg g rho = gsupp cfg g rho'.
+Proof.
+  induction g using (graph_ind' Z); intros rho rho' V.
+  - cbn [gsupp]. apply isupp_ext. intros i. unfold present. now rewrite (leaf_value_veq rho rho' i V).
+  - destruct o; cbn [gsupp]; [now apply IHg|].
+    induction (zrange (k_sizes cfg k)) as [|v L IHL]; [reflexivity|]. cbn [existsb].
+    rewrite IHL. f_equal. apply IHg. now apply upd_veq.
+  - rewrite !gsupp_sum. induction H as [|t ts Ht H IH]; [reflexivity|]. cbn [existsb]. now rewrite (Ht rho rho' V), IH.
+Qed.
+
+Definition overt (rho tau : val) (U : list string) : val := fun x => if smem x U then tau x else rho x.
+
+Lemma Gb_flag_support_gen bidx bidx' (g : graph Z) : forall U B dead rho,
+  bucket_okb bidx U g = true -> incl U bidx -> scopedb B g = true -> closedb B g = true ->
+  incl (graph_leaves g) (k_leaves cfg) -> LP dead rho B g -> RB rho B ->
+  bflag (Gb cfg bidx' g dead rho) = true ->
+  exists tau, (forall x, In x U -> 0 <= tau x < k_sizes cfg x) /\ gsupp cfg g (overt rho tau U) = true.
+Proof.
+  induction g using (graph_ind' Z); intros U B dead rho Hb HU Hs Hc Hi L R Hf.
+  - cbn [bucket_okb] in Hb. destruct U; [|discriminate]. exists (fun _ => 0). split; [intros x []|].
+    cbn [Gb gsupp] in *. destruct (eval_term cfg rho (exhaust_list e dead)) as [v o].
+    unfold bflag in Hf. cbn [fst snd] in Hf. apply negb_true_iff in Hf.
+    rewrite (isupp_ext _ (present cfg rho)); [now apply (terminal_flag_support dead rho B)|].
+    intros i. unfold present. apply f_equal with (f := fun o => match o with Some _ => true | None => false end).
+    apply leaf_value_veq. intros x. reflexivity.
+  - cbn [graph_leaves closedb] in *. cbn [Gb] in Hf.
+    destruct (visits cfg k o g dead rho) as [vs ov] eqn:Ev.
+    rewrite bflag_app in Hf. unfold bflag at 2 in Hf. cbn [fst snd] in Hf. rewrite orb_false_r in Hf.
+    rewrite bflag_fold in Hf. apply existsb_exists in Hf. destruct Hf as ([v dead_v] & Hin & Hfv).
+    cbn [fst snd] in Hfv.
+    assert (In (v, dead_v) (fst (visits cfg k o g dead rho))) as Hin' by (now rewrite Ev).
+    destruct (visits_in _ _ _ _ _ _ _ Hin') as (Hv & ctx & Ec & ->).
+    cbn [scopedb] in Hs. apply andb_true_iff in Hs. destruct Hs as [Hs H3].
+    apply andb_true_iff in Hs. destruct Hs as [H1 H2]. apply negb_true_iff in H1. apply smem_false in H1.
+    assert (LP (dead ++ absent_ids cfg rho v (sparse_leaves ctx)) (upd rho k v) (k :: B) g) as L'
+      by (now apply (LP_step dead rho B k v g ctx)).
+    assert (RB (upd rho k v) (k :: B)) as R' by (now apply RB_step).
+    destruct o as [lo|]; cbn [bucket_okb gsupp] in *.
+    + apply andb_true_iff in Hb. destruct Hb as [HkU Hb]. apply smem_In in HkU.
+      destruct (IHg (filter (fun x => negb (String.eqb x k)) U) (k :: B)
+                    (dead ++ absent_ids cfg rho v (sparse_leaves ctx)) (upd rho k v) Hb) as (tau & Ht & Hsupp); auto.
+      { intros x Hx. apply HU. apply filter_In in Hx. tauto. }
+      exists (upd tau k v). split.
+      * intros x Hx. destruct (String.eqb_spec x k) as [->|N]; [now rewrite upd_same|].
+        rewrite upd_other by exact N. apply Ht. apply filter_In. split; [exact Hx|].
+        apply negb_true_iff. now apply String.eqb_neq.
+      * rewrite <- Hsupp. apply gsupp_veq. intros x. unfold overt.
+        destruct (String.eqb_spec x k) as [->|N].
+        -- apply smem_In in HkU. rewrite HkU, (smem_filter_eq k U). now rewrite !upd_same.
+        -- rewrite (smem_filter_ne x k U N). now rewrite !(upd_other _ k v x N).
+    + apply andb_true_iff in Hb. destruct Hb as [Hkb Hb]. apply negb_true_iff in Hkb. apply smem_false in Hkb.
+      destruct (IHg U (k :: B) (dead ++ absent_ids cfg rho v (sparse_leaves ctx)) (upd rho k v) Hb) as (tau & Ht & Hsupp); auto.
+      exists tau. split; [exact Ht|]. apply existsb_exists. exists v. split; [now apply In_zrange|].
+      rewrite <- Hsupp. apply gsupp_veq. intros x. unfold overt, upd.
+      destruct (String.eqb_spec x k) as [->|N]; [|reflexivity].
+      assert (smem k U = false) as ->; [|reflexivity].
+      apply smem_false. intros HkU. apply Hkb. now apply HU.
+  - rewrite bucket_okb_sum in Hb. rewrite scopedb_sum in Hs. rewrite closedb_sum in Hc.
+    rewrite forallb_forall in Hb, Hs, Hc. rewrite Gb_sum_unfold, bflag_fold in Hf.
+    apply existsb_exists in Hf. destruct Hf as (t & Ht & Hft). rewrite Forall_forall in H.
+    destruct (H t Ht U B dead rho) as (tau & Htau & Hsupp); auto.
+    + intros x Hx. apply Hi. rewrite graph_leaves_sum. apply in_flat_map. eauto.
+    + now apply (LP_sub dead rho B ts).
+    + exists tau. split; [exact Htau|]. rewrite gsupp_sum. apply existsb_exists. eauto.
+Qed.
+
+Lemma bind_from_map_tau bidx (tau : val) : NoDup bidx ->
+  forall rho, veq (bind_from rho bidx (map tau bidx)) (overt rho tau bidx).
+Proof.
+  intros ND rho x. rewrite (bind_from_char cfg LOK bidx) by (now rewrite map_length). unfold overt.
+  destruct (smem x bidx) eqn:E; [|reflexivity]. apply smem_In in E.
+  pose proof (map_bind_from cfg LOK bidx (map tau bidx) ND ltac:(now rewrite map_length)) as M.
+  exact (proj1 map_ext_in_iff M x E).
+Qed.
+
 Hypothesis CFG : cfg_ok cfg.
+
+Lemma enter_bucket_flag_support l (g : graph Z) B dead rho :
+  bucket_entryb cfg g l = true -> NoDup (skipn l (k_oidx cfg)) ->
+  scopedb B g = true -> closedb B g = true -> incl (graph_leaves g) (k_leaves cfg) ->
+  LP dead rho B g -> RB rho B -> aflag (enter_bucket cfg l g dead rho) = true ->
+  exists rest, in_range rest (skipn l (k_oidx cfg))
+               /\ gsupp cfg g (bind_from rho (skipn l (k_oidx cfg)) rest) = true.
+Proof.
+  intros Hb ND Hs Hcl Hi L R Hf. unfold bucket_entryb in Hb. apply andb_true_iff in Hb. destruct Hb as [_ Hb].
+  unfold enter_bucket in Hf.
+  pose proof (Gb_flag_support_gen (skipn l (k_oidx cfg)) (skipn l (k_oidx cfg)) g _ B dead rho Hb (incl_refl _) Hs Hcl Hi L R) as S.
+  destruct (Gb cfg (skipn l (k_oidx cfg)) g dead rho) as [[cs f] o]. unfold aflag, bflag in *. cbn [fst snd] in *.
+  destruct (S Hf) as (tau & Ht & Hsupp). exists (map tau (skipn l (k_oidx cfg))). split.
+  - unfold in_range. clear -Ht. induction (skipn l (k_oidx cfg)) as [|x xs IH]; cbn [map]; constructor.
+    + apply Ht. now left.
+    + apply IH. intros y Hy. apply Ht. now right.
+  - rewrite <- Hsupp. apply gsupp_veq. now apply bind_from_map_tau.
+Qed.
+
+Lemma Ga_flag_support_gen (g : graph Z) : forall l B dead rho,
+  wellb cfg g l = true -> NoDup (skipn l (k_oidx cfg)) ->
+  scopedb B g = true -> closedb B g = true ->
+  incl (graph_leaves g) (k_leaves cfg) -> LP dead rho B g -> RB rho B ->
+  aflag (Ga cfg g l dead rho) = true ->
+  exists rest, in_range rest (skipn l (k_oidx cfg))
+               /\ gsupp cfg g (bind_from rho (skipn l (k_oidx cfg)) rest) = true.
+Proof.
+  induction g using (graph_ind' Z); intros l B dead rho Hc ND Hs Hcl Hi L R Hf.
+  - cbn [wellb] in Hc. apply andb_true_iff in Hc. destruct Hc as [H1 H2]. apply Nat.eqb_eq in H1, H2. subst l.
+    rewrite skipn_all. exists []. split; [constructor|]. cbn [bind_from gsupp].
+    cbn [Ga] in Hf. unfold order in H2. rewrite <- H2, Nat.eqb_refl in Hf.
+    destruct (eval_term cfg rho (exhaust_list e dead)) as [v o]. unfold aflag in Hf. cbn [fst snd] in Hf.
+    apply negb_true_iff in Hf. now apply (terminal_flag_support dead rho B).
+  - destruct o as [l'|]; [|exact (enter_bucket_flag_support l _ B dead rho Hc ND Hs Hcl Hi L R Hf)].
+    cbn [wellb] in Hc. cbn [Ga] in Hf. destruct (Nat.eqb l' l) eqn:El; [|exact (enter_bucket_flag_support l _ B dead rho Hc ND Hs Hcl Hi L R Hf)].
+    apply Nat.eqb_eq in El. subst l'.
+    apply andb_true_iff in Hc. destruct Hc as [Hc Hc4]. apply andb_true_iff in Hc. destruct Hc as [Hc2 Hc3].
+    apply Nat.ltb_lt in Hc2. apply String.eqb_eq in Hc3.
+    rewrite (skipn_nth cfg LOK _ _ EmptyString Hc2) in *. rewrite <- Hc3 in *. clear Hc3.
+    inversion ND as [|? ? Hkn ND']; subst.
+    destruct (visits cfg k (Some l) g dead rho) as [vs ov] eqn:Ev. unfold aflag in Hf. cbn [fst snd] in Hf.
+    apply existsb_exists in Hf. destruct Hf as (c0 & Hc0 & Hfc). apply in_map_iff in Hc0.
+    destruct Hc0 as ([v dead_v] & <- & Hin). cbn [fst snd] in Hfc.
+    assert (In (v, dead_v) (fst (visits cfg k (Some l) g dead rho))) as Hin' by (now rewrite Ev).
+    destruct (visits_in _ _ _ _ _ _ _ Hin') as (Hv & ctx & Ec & ->).
+    cbn [scopedb closedb graph_leaves] in *. apply andb_true_iff in Hs. destruct Hs as [Hs H3].
+    apply andb_true_iff in Hs. destruct Hs as [H1 H2]. apply negb_true_iff in H1. apply smem_false in H1.
+    destruct (IHg (S l) (k :: B) (dead ++ absent_ids cfg rho v (sparse_leaves ctx)) (upd rho k v) Hc4 ND' H3 Hcl Hi)
+      as (rest' & Hr & Hsupp); [now apply (LP_step dead rho B k v g ctx)|now apply RB_step|exact Hfc|].
+    exists (v :: rest'). split; [constructor; assumption|]. cbn [bind_from gsupp]. exact Hsupp.
+  - cbn [wellb] in Hc. exact (enter_bucket_flag_support l _ B dead rho Hc ND Hs Hcl Hi L R Hf).
+Qed.
+
+Lemma nth_error_skipn' {A} (L : list A) : forall n m, nth_error (skipn n L) m = nth_error L (n + m).
+Proof.
+  induction L as [|a L IH]; intros n m; [destruct n, m; reflexivity|].
+  destruct n as [|n]; [reflexivity|]. cbn [skipn plus nth_error]. apply IH.
+Qed.
+
+Lemma dense_not_compressed l (p : list Z) :
+  forallb mode_is_dense (skipn l (k_omodes cfg)) = true -> p <> [] ->
+  nth_error (k_omodes cfg) (l + List.length p - 1) = Some MCompressed -> False.
+Proof.
+  intros Hd Hp Hm. destruct p as [|c0 p]; [congruence|]. cbn [List.length] in Hm.
+  replace (l + S (List.length p) - 1)%nat with (l + List.length p)%nat in Hm by lia.
+  rewrite <- nth_error_skipn' in Hm. rewrite forallb_forall in Hd.
+  apply nth_error_In in Hm. specialize (Hd _ Hm). discriminate.
+Qed.
+
+Lemma Ga_stored_support_gen (g : graph Z) : forall l B dead rho p sub,
+  wellb cfg g l = true -> NoDup (skipn l (k_oidx cfg)) ->
+  scopedb B g = true -> closedb B g = true ->
+  incl (graph_leaves g) (k_leaves cfg) -> LP dead rho B g -> RB rho B ->
+  p <> [] -> tnode_at p (atrie (Ga cfg g l dead rho)) = Some sub ->
+  nth_error (k_omodes cfg) (l + List.length p - 1) = Some MCompressed ->
+  exists rest, in_range (p ++ rest) (skipn l (k_oidx cfg))
+               /\ gsupp cfg g (bind_from rho (skipn l (k_oidx cfg)) (p ++ rest)) = true.
+Proof.
+  assert (forall (g : graph Z) l (p : list Z), bucket_entryb cfg g l = true -> p <> [] ->
+            nth_error (k_omodes cfg) (l + List.length p - 1) = Some MCompressed -> False) as BE.
+  { intros g0 l p Hb. unfold bucket_entryb in Hb. apply andb_true_iff in Hb. destruct Hb as [Hd _].
+    now apply dense_not_compressed. }
+  induction g using (graph_ind' Z); intros l B dead rho p sub Hc ND Hs Hcl Hi L R Hp Hn Hm.
+  - exfalso. destruct p as [|c p]; [congruence|]. cbn [tnode_at] in Hn.
+    cbn [Ga] in Hn. destruct (Nat.eqb l (List.length (k_omodes cfg)));
+      [destruct (eval_term cfg rho (exhaust_list e dead))|]; discriminate.
+  - destruct o as [l'|]; [|exfalso; exact (BE _ l p Hc Hp Hm)].
+    cbn [wellb] in Hc. cbn [Ga] in Hn. destruct (Nat.eqb l' l) eqn:El; [|exfalso; exact (BE _ l p Hc Hp Hm)].
+    apply Nat.eqb_eq in El. subst l'.
+    apply andb_true_iff in Hc. destruct Hc as [Hc Hc4]. apply andb_true_iff in Hc. destruct Hc as [Hc2 Hc3].
+    apply Nat.ltb_lt in Hc2. apply String.eqb_eq in Hc3.
+    rewrite (skipn_nth cfg LOK _ _ EmptyString Hc2) in *. rewrite <- Hc3 in *. clear Hc3.
+    inversion ND as [|? ? Hkn ND']; subst.
+    destruct p as [|v p']; [congruence|]. cbn [tnode_at] in Hn.
+    cbn [scopedb closedb graph_leaves] in *. apply andb_true_iff in Hs. destruct Hs as [Hs H3].
+    apply andb_true_iff in Hs. destruct Hs as [H1 H2]. apply negb_true_iff in H1. apply smem_false in H1.
+    unfold visits in Hn.
+    destruct (gctx_defined cfg LOK dead k g Hi) as (ctx & Ec). rewrite Ec in Hn.
+    unfold atrie in Hn. cbn [fst snd kids_of] in Hn.
+    set (cnd := fun v0 => negb (is_sparse ctx && out_sparse cfg (Some l))
+                 || has_sparse_leaf (gctx (dead ++ absent_ids cfg rho v0 (sparse_leaves ctx)) k g)) in *.
+    set (dv := fun v0 => dead ++ absent_ids cfg rho v0 (sparse_leaves ctx)) in *.
+    set (RR := fun vd : Z * list string => Ga cfg g (S l) (snd vd) (upd rho k (fst vd))) in *.
+    set (comp := match nth_error (k_omodes cfg) l with Some MCompressed => true | _ => false end) in *.
+    match type of Hn with match find _ (map _ ?K) with _ => _ end = _ =>
+      replace K with (let kids := map (fun vd => (fst vd, RR vd))
+                                      (flat_map (fun v0 => if cnd v0 then [(v0, dv v0)] else []) (zrange (k_sizes cfg k))) in
+                      if comp then filter (fun c0 : Z * ares => snd (fst (snd c0))) kids else kids) in Hn
+        by (unfold comp; cbn zeta; destruct (nth_error (k_omodes cfg) l) as [[|]|]; reflexivity)
+    end.
+    rewrite (find_kept _ cnd dv RR comp v (NoDup_zrange _)), (existsb_zrange cfg LOK) in Hn.
+    destruct ((0 <=? v) && (v <? k_sizes cfg k)) eqn:Ev; [|discriminate].
+    destruct (cnd v) eqn:Ecv; [|discriminate]. cbn [andb] in Hn.
+    destruct (negb comp || aflag (RR (v, dv v))) eqn:Ek; [|discriminate]. cbn [snd] in Hn.
+    assert (LP (dv v) (upd rho k v) (k :: B) g) as L' by (now apply (LP_step dead rho B k v g ctx)).
+    assert (RB (upd rho k v) (k :: B)) as R' by (apply RB_step; [exact R|lia]).
+    destruct p' as [|c p''].
+    + cbn [List.length] in Hm. replace (l + 1 - 1)%nat with l in Hm by lia.
+      assert (comp = true) as Ecomp by (unfold comp; now rewrite Hm).
+      rewrite Ecomp in Ek. cbn [negb orb] in Ek.
+      destruct (Ga_flag_support_gen g (S l) (k :: B) (dv v) (upd rho k v) Hc4 ND' H3 Hcl Hi L' R' Ek) as (rest & Hr & Hsupp).
+      exists rest. cbn [app]. split; [constructor; [lia|exact Hr]|]. cbn [bind_from gsupp]. exact Hsupp.
+    + destruct (IHg (S l) (k :: B) (dv v) (upd rho k v) (c :: p'') sub Hc4 ND' H3 Hcl Hi L' R') as (rest & Hr & Hsupp);
+        [discriminate|exact Hn| |].
+      { cbn [List.length] in *. replace (S l + S (List.length p'') - 1)%nat with (l + S (S (List.length p'')) - 1)%nat by lia.
+        exact Hm. }
+      exists rest. split; [cbn [app]; constructor; [lia|exact Hr]|]. cbn [app bind_from gsupp]. exact Hsupp.
+  - exfalso. cbn [wellb] in Hc. exact (BE _ l p Hc Hp Hm).
+Qed.
+
+Theorem G_no_phantoms_level_gen (g : graph Z) (l : nat) (p : list Z) :
+  incl (graph_leaves g) (k_leaves cfg) -> wellb cfg g 0 = true -> NoDup (k_oidx cfg) ->
+  scopedb [] g = true -> closedb [] g = true ->
+  nth_error (k_omodes cfg) l = Some MCompressed ->
+  In p (stored_prefixes (G_out cfg g) (S l)) ->
+  exists rest, in_range (p ++ rest) (k_oidx cfg)
+               /\ gsupp cfg g (bind_from (fun _ => 0) (k_oidx cfg) (p ++ rest)) = true.
+Proof.
+  intros Hi Hc ND Hs Hcl Hm Hin.
+  assert (twf (olevels cfg) (atrie (G cfg g))) as TW.
+  { apply (Ga_twf cfg LOK CFG g 0 [] (fun _ => 0)); [now apply (wellb_shape cfg LOK CFG)|exact Hi]. }
+  assert (S l <= List.length (k_omodes cfg))%nat as Hl.
+  { assert (l < List.length (k_omodes cfg))%nat by (apply nth_error_Some; congruence). lia. }
+  destruct (stored_prefixes_nodes cfg _ (S l) p CFG TW Hl Hin) as (Lp & sub & Hsub).
+  apply (Ga_stored_support_gen g 0 [] [] (fun _ => 0) p sub Hc ND Hs Hcl Hi (LP_nil _ _ _)).
+  - intros x [].
+  - intros ->. discriminate.
+  - exact Hsub.
+  - rewrite Lp. cbn. now rewrite Nat.sub_0_r.
+Qed.
 
 Theorem G_no_phantoms_level (g : graph Z) (l : nat) (p : list Z) :
   incl (graph_leaves g) (k_leaves cfg) -> chainb cfg g 0 = true -> scopedb [] g = true ->
